@@ -422,7 +422,7 @@ fn vq_c10_cubic_on_packet_discarded() {
 }
 
 // ---------------------------------------------------------------------------------------------------
-//@ harness props=C10 tier=quick level=bounded timeout=600 flags=cbrtf bound="datagram size change 9000->1200 or 1500->1200 (DESIGN 6 item 6); window: every f32 in [2*mds, 2^32)"
+//@ harness props=C10 tier=quick level=bounded timeout=900 flags=cbrtf bound="datagram size change 9000->1200 or 1500->1200 (DESIGN 6 item 6); window: every f32 in [2*mds, 2^32)"
 //@ fn CubicCongestionController::on_mtu_update
 //@ fn CubicCongestionController::initial_window
 #[kani::proof]
@@ -433,7 +433,7 @@ fn vq_c10_cubic_on_mtu_update_shrink() {
     vq_c10_cubic_on_mtu_update_body(old, new);
 }
 
-//@ harness props=C10 tier=quick level=bounded timeout=600 flags=cbrtf bound="datagram size change 1200->9000 or 1200->1500; window: every f32 in [2*mds, 2^32)"
+//@ harness props=C10 tier=quick level=bounded timeout=1200 flags=cbrtf bound="datagram size change 1200->9000 or 1200->1500; window: every f32 in [2*mds, 2^32)"
 //@ fn CubicCongestionController::on_mtu_update
 //@ fn CubicCongestionController::initial_window
 #[kani::proof]
